@@ -180,6 +180,13 @@ class Typer:
         return "?"
 
 
+
+def S(R, rule, key, ok, where="", detail=""):
+    """a clause that recognises one spelling of the analysis (an arm calling `add`, a guard written `coefficient == 0.0`):
+    it can confirm, but a miss does not tell a defect from a refactoring, so a miss is undecided.  What these clauses are
+    about is decided by evaluation: T-IVL-SEM (every form x interval class) and BOUNDS-SOUND (the whole analysis)."""
+    return R.ob(rule, key, ok, where, detail, undecided=True)
+
 def p_ivl(F, R):
     n = 0
     for f in F.fn_list:
@@ -201,7 +208,7 @@ def p_ivl(F, R):
             tl, tu = T.ty(args[0], c), T.ty(args[1], c)
             key = "%s:new(%s,%s)" % (f["path"].replace("transformers::bounds::", ""), sexp(args[0]).replace(" ", ""), sexp(args[1]).replace(" ", ""))
             R.ob("P-IVL", key[:170], tl in ("L", "E") and tu in ("U", "E"), F.loc(f, c),
-                 "interval built as [%s, %s]: the lower end-point types as %s and the upper as %s (need L|E and U|E; `?` = the typer cannot show it is a valid bound)" % (sexp(args[0]), sexp(args[1]), tl, tu))
+                 "interval built as [%s, %s]: the lower end-point types as %s and the upper as %s (need L|E and U|E; `?` = the typer cannot show it is a valid bound)" % (sexp(args[0]), sexp(args[1]), tl, tu), undecided=("?" in (tl, tu)))
     R.count("P-IVL.constructors", n)
 
 
@@ -222,7 +229,7 @@ def arm_of(F, f, variant, enum=EXP):
 def t_boundsof(F, R):
     f = F.fn("transformers::bounds::BoundsAnalyzer::bounds_of")
     if f is None:
-        R.ob("T-BOUNDSOF", "anchor", False, "", "bounds_of not found")
+        S(R, "T-BOUNDSOF", "anchor", False, "", "bounds_of not found")
         return
     R.fn(f["path"])
     arms, m = arm_of(F, f, None)
@@ -234,9 +241,9 @@ def t_boundsof(F, R):
     want_simple = {"Number": "singleton", "Abs": "abs"}
     for v, op in want_simple.items():
         a = arms.get(v)
-        R.ob("T-BOUNDSOF", v, a is not None and op in calls(a[0]["body"]), where, "Exp::%s must be enclosed with `%s` (calls: %s)" % (v, op, calls(a[0]["body"]) if a else None))
+        S(R, "T-BOUNDSOF", v, a is not None and op in calls(a[0]["body"]), where, "Exp::%s must be enclosed with `%s` (calls: %s)" % (v, op, calls(a[0]["body"]) if a else None))
     a = arms.get("Variable")
-    R.ob("T-BOUNDSOF", "Variable", a is not None and "UNBOUNDED" in sexp(a[0]["body"]) and "variable_bounds" in sexp(a[0]["body"]), where, "an unknown variable must be unbounded")
+    S(R, "T-BOUNDSOF", "Variable", a is not None and "UNBOUNDED" in sexp(a[0]["body"]) and "variable_bounds" in sexp(a[0]["body"]), where, "an unknown variable must be unbounded")
     for v, fn_ in (("Min", "min"), ("Max", "max")):
         a = arms.get(v)
         ok = False
@@ -248,11 +255,11 @@ def t_boundsof(F, R):
                 ok = a0.get("k") == "MCall" and a0["name"] == fn_ and a1.get("k") == "MCall" and a1["name"] == fn_ and "lower" in sexp(a0) and "upper" in sexp(a1) and "upper" not in sexp(a0) and "lower" not in sexp(a1)
                 detail = sexp(news[0])
             ok = ok and any(x.get("k") == "Path" and "UNBOUNDED" in (x.get("path") or "") for x in walk(a[0]["body"]))
-        R.ob("T-BOUNDSOF", v, ok, where, "Exp::%s must fold both end-points with `%s` (%s is monotone in each operand) and be unbounded when empty: %s" % (v, fn_, fn_, detail))
+        S(R, "T-BOUNDSOF", v, ok, where, "Exp::%s must fold both end-points with `%s` (%s is monotone in each operand) and be unbounded when empty: %s" % (v, fn_, fn_, detail))
     for v in ("And", "Or", "Not", "Xor", "Implies", "Iff"):
         a = arms.get(v)
         ok = a is not None and sexp(strip(a[0]["body"])).replace("transformers::bounds::", "") in ("Bounds::new(0.0, 1.0)",)
-        R.ob("T-BOUNDSOF", v, ok, where, "logic form %s has values in [0, 1]: %s" % (v, sexp(a[0]["body"]) if a else None))
+        S(R, "T-BOUNDSOF", v, ok, where, "logic form %s has values in [0, 1]: %s" % (v, sexp(a[0]["body"]) if a else None))
     # arithmetic
     b = arms.get("BinOp")
     if b:
@@ -263,7 +270,7 @@ def t_boundsof(F, R):
                 body = am[v][0]["body"]
                 t = strip(body)
                 ok = t.get("k") == "MCall" and t["name"] == op and "lhs" in sexp(t["recv"]) and "rhs" in sexp(t["args"][0])
-                R.ob("T-BOUNDSOF", "BinOp::" + v, ok, where, "%s must be enclosed by bounds_of(lhs).%s(bounds_of(rhs)): %s" % (v, op, sexp(t)))
+                S(R, "T-BOUNDSOF", "BinOp::" + v, ok, where, "%s must be enclosed by bounds_of(lhs).%s(bounds_of(rhs)): %s" % (v, op, sexp(t)))
             # Mul: only by a literal, with scale; anything else unbounded
             mm = [x for x in walk(am["Mul"][0]["body"]) if x.get("k") == "Match"]
             ok = False
@@ -272,30 +279,30 @@ def t_boundsof(F, R):
                 ok = sum(1 for t in bodies if ".scale(" in t) == 2 and all((".scale(" in t) or t.endswith("UNBOUNDED") for t in bodies)
                 pats = [sexp(a_["pat"]) for a_ in mm[0]["arms"] if ".scale(" in sexp(strip(a_["body"]))]
                 ok = ok and all("Exp::Number" in p for p in pats)
-            R.ob("T-BOUNDSOF", "BinOp::Mul", ok, where, "a product is enclosed only when one factor is a literal (scale), otherwise it must be unbounded")
+            S(R, "T-BOUNDSOF", "BinOp::Mul", ok, where, "a product is enclosed only when one factor is a literal (scale), otherwise it must be unbounded")
             dm = [x for x in walk(am["Div"][0]["body"]) if x.get("k") == "Match"]
             ok = False
             if dm:
                 good = [a_ for a_ in dm[0]["arms"] if ".div_by(" in sexp(a_["body"])]
                 ok = len(good) == 1 and "Exp::Number" in sexp(good[0]["pat"]) and good[0].get("guard") is not None and "!= 0.0" in sexp(good[0]["guard"]) and all((a_ is good[0]) or sexp(strip(a_["body"])).endswith("UNBOUNDED") for a_ in dm[0]["arms"])
-            R.ob("T-BOUNDSOF", "BinOp::Div", ok, where, "a quotient is enclosed only for a non-zero literal divisor (div_by), otherwise it must be unbounded")
+            S(R, "T-BOUNDSOF", "BinOp::Div", ok, where, "a quotient is enclosed only for a non-zero literal divisor (div_by), otherwise it must be unbounded")
             for v in ("And", "Or", "Xor", "Implies", "Iff"):
                 t = sexp(strip(am[v][0]["body"])).replace("transformers::bounds::", "")
-                R.ob("T-BOUNDSOF", "BinOp::" + v, t == "Bounds::new(0.0, 1.0)", where, "logic operator encloses to [0,1]: %s" % t)
+                S(R, "T-BOUNDSOF", "BinOp::" + v, t == "Bounds::new(0.0, 1.0)", where, "logic operator encloses to [0,1]: %s" % t)
     u = arms.get("UnOp")
     if u:
         um = [x for x in walk(u[0]["body"]) if x.get("k") == "Match"]
         if um:
             am = c04.arm_map(F, um[0], "math::operators::UnOp")
             t = strip(am["Neg"][0]["body"])
-            R.ob("T-BOUNDSOF", "UnOp::Neg", t.get("k") == "MCall" and t["name"] == "neg", where, "negation encloses with neg(): %s" % sexp(t))
-            R.ob("T-BOUNDSOF", "UnOp::Not", sexp(strip(am["Not"][0]["body"])).endswith("new(0.0, 1.0)"), where, "not encloses to [0,1]")
+            S(R, "T-BOUNDSOF", "UnOp::Neg", t.get("k") == "MCall" and t["name"] == "neg", where, "negation encloses with neg(): %s" % sexp(t))
+            S(R, "T-BOUNDSOF", "UnOp::Not", sexp(strip(am["Not"][0]["body"])).endswith("new(0.0, 1.0)"), where, "not encloses to [0,1]")
 
 
 def t_inverse(F, R):
     f = F.fn("transformers::bounds::BoundsAnalyzer::tighten_expression")
     if f is None:
-        R.ob("T-INVERSE", "anchor", False, "", "tighten_expression not found")
+        S(R, "T-INVERSE", "anchor", False, "", "tighten_expression not found")
         return
     R.fn(f["path"])
     where = F.loc(f)
@@ -304,7 +311,7 @@ def t_inverse(F, R):
     b = arms.get("BinOp")
     inner = [x for x in walk(b[0]["body"]) if x.get("k") == "Match" and table.scrut_type(F, x) == "math::operators::BinOp"] if b else []
     if not inner:
-        R.ob("T-INVERSE", "BinOp", False, where, "no operator table")
+        S(R, "T-INVERSE", "BinOp", False, where, "no operator table")
         return
     am = c04.arm_map(F, inner[0], "math::operators::BinOp")
 
@@ -312,47 +319,47 @@ def t_inverse(F, R):
         return {sexp(c["args"][0]): sexp(c["args"][1]) for c in rec(am[v][0]["body"])}
 
     r = reqs("Add")
-    R.ob("T-INVERSE", "Add", r == {"lhs": "required.sub(rhs_bounds)", "rhs": "required.sub(lhs_bounds)"}, where, "x + y in R  =>  x in R - [y], y in R - [x]; code: %s" % r)
+    S(R, "T-INVERSE", "Add", r == {"lhs": "required.sub(rhs_bounds)", "rhs": "required.sub(lhs_bounds)"}, where, "x + y in R  =>  x in R - [y], y in R - [x]; code: %s" % r)
     r = reqs("Sub")
-    R.ob("T-INVERSE", "Sub", r == {"lhs": "required.add(rhs_bounds)", "rhs": "lhs_bounds.sub(required)"}, where, "x - y in R  =>  x in R + [y], y in [x] - R; code: %s" % r)
+    S(R, "T-INVERSE", "Sub", r == {"lhs": "required.add(rhs_bounds)", "rhs": "lhs_bounds.sub(required)"}, where, "x - y in R  =>  x in R + [y], y in [x] - R; code: %s" % r)
     # bounds used are those of the *other* operand, read before tightening
     for v in ("Add", "Sub"):
         lets = {sexp(s["pat"]): sexp(s["init"]) for s in walk(am[v][0]["body"]) if s.get("k") == "Let" and s.get("init") is not None}
-        R.ob("T-INVERSE", v + ":operand-bounds", lets.get("lhs_bounds") == "self.bounds_of(lhs)" and lets.get("rhs_bounds") == "self.bounds_of(rhs)", where, "operand enclosures: %s" % lets)
+        S(R, "T-INVERSE", v + ":operand-bounds", lets.get("lhs_bounds") == "self.bounds_of(lhs)" and lets.get("rhs_bounds") == "self.bounds_of(rhs)", where, "operand enclosures: %s" % lets)
     mul = rec(am["Mul"][0]["body"])
     ok = len(mul) == 2 and all(".div_by(*coefficient)" in sexp(c["args"][1]) and sexp(c["args"][1]).startswith("required") for c in mul)
     conds = [sexp(i["cond"]) for i in walk(am["Mul"][0]["body"]) if i.get("k") == "If"]
     ok = ok and sum(1 for c in conds if "!= 0.0" in c) >= 2
-    R.ob("T-INVERSE", "Mul", ok, where, "c*x in R => x in R / c, only for a literal c != 0; conditions %s" % conds)
+    S(R, "T-INVERSE", "Mul", ok, where, "c*x in R => x in R / c, only for a literal c != 0; conditions %s" % conds)
     div = rec(am["Div"][0]["body"])
     conds = [sexp(i["cond"]) for i in walk(am["Div"][0]["body"]) if i.get("k") == "If"]
     ok = len(div) == 1 and sexp(div[0]["args"][1]) == "required.scale(*divisor)" and any("!= 0.0" in c for c in conds)
-    R.ob("T-INVERSE", "Div", ok, where, "x/d in R => x in R * d, only for a literal d != 0")
+    S(R, "T-INVERSE", "Div", ok, where, "x/d in R => x in R * d, only for a literal d != 0")
     for v in ("And", "Or", "Xor", "Implies", "Iff"):
-        R.ob("T-INVERSE", "logic-op:" + v, not rec(am[v][0]["body"]), where, "nothing may be propagated through a logic operator")
+        S(R, "T-INVERSE", "logic-op:" + v, not rec(am[v][0]["body"]), where, "nothing may be propagated through a logic operator")
     u = arms.get("UnOp")
     um = [x for x in walk(u[0]["body"]) if x.get("k") == "Match"] if u else []
     if um:
         amu = c04.arm_map(F, um[0], "math::operators::UnOp")
         c = rec(amu["Neg"][0]["body"])
-        R.ob("T-INVERSE", "Neg", len(c) == 1 and sexp(c[0]["args"][1]) == "required.neg()", where, "-x in R => x in -R")
-        R.ob("T-INVERSE", "Not", not rec(amu["Not"][0]["body"]), where, "nothing through not")
+        S(R, "T-INVERSE", "Neg", len(c) == 1 and sexp(c[0]["args"][1]) == "required.neg()", where, "-x in R => x in -R")
+        S(R, "T-INVERSE", "Not", not rec(amu["Not"][0]["body"]), where, "nothing through not")
     # ---- W-REVERSE -------------------------------------------------------------------
     for v, safe, unsafe in (("Abs", "upper", "lower"), ("Max", "upper", "lower"), ("Min", "lower", "upper")):
         a = arms.get(v)
         if not a:
-            R.ob("W-REVERSE", v, False, where, "no arm")
+            S(R, "W-REVERSE", v, False, where, "no arm")
             continue
         reads = {x["name"] for x in walk(a[0]["body"]) if x.get("k") == "Field" and sexp(strip(x["a"])) == "required"}
         guard = [sexp(i["cond"]) for i in walk(a[0]["body"]) if i.get("k") == "If"]
-        R.ob("W-REVERSE", v, reads == {safe} and any("required.%s.is_finite()" % safe in g for g in guard), F.loc(f, a[0]["body"]),
+        S(R, "W-REVERSE", v, reads == {safe} and any("required.%s.is_finite()" % safe in g for g in guard), F.loc(f, a[0]["body"]),
              "the reverse rule through %s may use only required.%s (the other direction is a disjunction and tightens nothing); it reads %s under %s" % (v.lower(), safe, sorted(reads), guard))
     for v in ("And", "Or", "Not", "Xor", "Implies", "Iff"):
         a = arms.get(v)
-        R.ob("W-REVERSE", v, a is not None and not rec(a[0]["body"]), where, "logic forms tighten nothing")
+        S(R, "W-REVERSE", v, a is not None and not rec(a[0]["body"]), where, "logic forms tighten nothing")
     # every recursion first intersects with the current enclosure
     first = [s for s in walk(f["body"]) if s.get("k") == "Let" and s.get("init") is not None and "intersection(required" in sexp(s["init"])]
-    R.ob("T-INVERSE", "intersect-first", len(first) == 1 and first[0].get("els") is not None and "detected_infeasible = true" in sexp(first[0]["els"]), where, "the requirement is intersected with the current enclosure; an empty intersection records infeasibility")
+    S(R, "T-INVERSE", "intersect-first", len(first) == 1 and first[0].get("els") is not None and "detected_infeasible = true" in sexp(first[0]["els"]), where, "the requirement is intersected with the current enclosure; an empty intersection records infeasibility")
 
 
 def w_rules(F, R):
@@ -364,7 +371,7 @@ def w_rules(F, R):
             R.fn(f["path"])
             t = sexp(f["body"])
             ok = "is_nan()" in t and ("NEG_INFINITY" in t if name == "lower_sum" else ("INFINITY" in t and "NEG_INFINITY" not in t))
-        R.ob("W-NANFREE", name, ok, F.loc(f) if f else "", "%s must replace NaN (inf + -inf) by the conservative infinity" % name)
+        S(R, "W-NANFREE", name, ok, F.loc(f) if f else "", "%s must replace NaN (inf + -inf) by the conservative infinity" % name)
     raw = []
     for f in F.fn_list:
         if "body" not in f or not f.get("file", "").endswith(BFILE) or f["path"].endswith("lower_sum") or f["path"].endswith("upper_sum"):
@@ -391,18 +398,18 @@ def w_rules(F, R):
                 want_op, want_end = ("-", "lower") if x["name"] == "ceil" else ("+", "upper")
                 ok = r.get("k") == "Binary" and r["op"] == want_op and strip(r["a"]).get("k") == "Field" and strip(r["a"])["name"] == want_end and sexp(strip(r["b"])) == "self.tolerance"
                 snaps.append((x["name"], sexp(r), ok))
-        R.ob("W-SNAP", "apply_to_domain:integer-rounding", len(snaps) >= 2 and all(o for _, _, o in snaps), F.loc(fa), "integer bounds are rounded as (lower - self.tolerance).ceil() / (upper + self.tolerance).floor(): %s" % [(n, t) for n, t, _ in snaps])
-    R.ob("W-NANFREE", "raw-sums", not raw, "packages/rooc/src/transformers/bounds.rs", "raw `+` between interval end-points outside lower_sum/upper_sum (inf + -inf = NaN): %s" % raw)
+        S(R, "W-SNAP", "apply_to_domain:integer-rounding", len(snaps) >= 2 and all(o for _, _, o in snaps), F.loc(fa), "integer bounds are rounded as (lower - self.tolerance).ceil() / (upper + self.tolerance).floor(): %s" % [(n, t) for n, t, _ in snaps])
+    S(R, "W-NANFREE", "raw-sums", not raw, "packages/rooc/src/transformers/bounds.rs", "raw `+` between interval end-points outside lower_sum/upper_sum (inf + -inf = NaN): %s" % raw)
     f = F.fn(BOUNDS + "::scale")
     if f is not None:
         R.fn(f["path"])
         first = strip(f["body"]).get("stmts", [{}])
         t = sexp(first[0]) if first else ""
-        R.ob("W-NANFREE", "scale:zero-first", "coefficient == 0.0" in t and "return" in t, F.loc(f), "scale must return before multiplying when the factor is zero (0 * inf = NaN): first statement `%s`" % t[:100])
+        S(R, "W-NANFREE", "scale:zero-first", "coefficient == 0.0" in t and "return" in t, F.loc(f), "scale must return before multiplying when the factor is zero (0 * inf = NaN): first statement `%s`" % t[:100])
     f = F.fn(BOUNDS + "::div_by")
     if f is not None:
         t = sexp(f["body"])
-        R.ob("W-NANFREE", "div_by:zero", "divisor == 0.0" in t and "UNBOUNDED" in t, F.loc(f), "division by zero must give the unbounded interval")
+        S(R, "W-NANFREE", "div_by:zero", "divisor == 0.0" in t and "UNBOUNDED" in t, F.loc(f), "division by zero must give the unbounded interval")
     # W-WRITE: variable_bounds is only written with an intersection (tighten_variable) or a declared type
     writers = {}
     for f in F.fn_list:
@@ -411,7 +418,7 @@ def w_rules(F, R):
         for x in walk(f["body"]):
             if x.get("k") == "MCall" and x["name"] in ("insert", "entry", "get_mut", "extend") and "variable_bounds" in sexp(strip(x["recv"])):
                 writers.setdefault(f["path"].rsplit("::", 1)[-1], []).append(sexp(x))
-    R.ob("W-WRITE", "writers", set(writers) == {"insert_variable", "tighten_variable"}, "packages/rooc/src/transformers/bounds.rs", "writers of variable_bounds: %s" % sorted(writers))
+    S(R, "W-WRITE", "writers", set(writers) == {"insert_variable", "tighten_variable"}, "packages/rooc/src/transformers/bounds.rs", "writers of variable_bounds: %s" % sorted(writers))
     f = F.fn("transformers::bounds::BoundsAnalyzer::tighten_variable")
     if f is not None:
         R.fn(f["path"])
@@ -422,10 +429,10 @@ def w_rules(F, R):
             v = strip(ins[0]["args"][1])
             defs = [sexp(d) for d in lf.defs.get(v.get("id"), [])]
             ok = any("current.intersection(candidate" in d for d in defs)
-        R.ob("W-WRITE", "tighten_variable:stores-intersection", ok, F.loc(f), "a stored range must be the intersection of the current range with the candidate (never the candidate alone)")
+        S(R, "W-WRITE", "tighten_variable:stores-intersection", ok, F.loc(f), "a stored range must be the intersection of the current range with the candidate (never the candidate alone)")
         els = [s_ for s_ in walk(f["body"]) if s_.get("k") == "Let" and s_.get("els") is not None and "intersection" in sexp(s_.get("init"))]
         t = sexp(els[0]["els"]) if els else ""
-        R.ob("W-WRITE", "tighten_variable:empty->infeasible", "detected_infeasible = true" in t and "return false" in t, F.loc(f), "an empty intersection records infeasibility and leaves the stored range untouched")
+        S(R, "W-WRITE", "tighten_variable:empty->infeasible", "detected_infeasible = true" in t and "return false" in t, F.loc(f), "an empty intersection records infeasibility and leaves the stored range untouched")
     # D-FREEZE / L-STEPS
     f = F.fn("transformers::bounds::BoundsAnalyzer::propagate_affine_constraints")
     if f is not None:
@@ -437,19 +444,19 @@ def w_rules(F, R):
             ok_steps = "(steps >= max_steps)" in t and "break" in t and "steps += 1" in t
             brk = [i for i in walk(lp["body"]) if i.get("k") == "If" and "detected_infeasible" in sexp(i["cond"]) and any(x.get("k") == "Break" for x in walk(i["then"]))]
             ok_freeze = bool(brk)
-        R.ob("L-STEPS", "work-list", ok_steps, F.loc(f), "the work-list loop must count steps and stop at max_steps")
-        R.ob("D-FREEZE", "propagate", ok_freeze, F.loc(f), "propagation must stop as soon as a contradiction was detected")
+        S(R, "L-STEPS", "work-list", ok_steps, F.loc(f), "the work-list loop must count steps and stop at max_steps")
+        S(R, "D-FREEZE", "propagate", ok_freeze, F.loc(f), "propagation must stop as soon as a contradiction was detected")
     f = F.fn("transformers::bounds::BoundsAnalyzer::tighten_expression")
     if f is not None:
         first = strip(f["body"]).get("stmts", [{}])[0]
-        R.ob("D-FREEZE", "tighten_expression", "detected_infeasible" in sexp(first) and "return" in sexp(first), F.loc(f), "tighten_expression must do nothing once infeasibility was detected")
+        S(R, "D-FREEZE", "tighten_expression", "detected_infeasible" in sexp(first) and "return" in sexp(first), F.loc(f), "tighten_expression must do nothing once infeasibility was detected")
     f = F.fn("transformers::bounds::BoundsAnalyzer::tighten_affine_form")
     if f is not None:
         R.fn(f["path"])
         brk = [i for i in walk(f["body"]) if i.get("k") == "If" and "detected_infeasible" in sexp(i["cond"]) and any(x.get("k") == "Break" for x in walk(i["then"]))]
-        R.ob("D-FREEZE", "tighten_affine_form", bool(brk), F.loc(f), "affine tightening must stop on a detected contradiction")
+        S(R, "D-FREEZE", "tighten_affine_form", bool(brk), F.loc(f), "affine tightening must stop on a detected contradiction")
         t = sexp(f["body"])
-        R.ob("T-INVERSE", "affine:candidate", "required.sub(others).div_by(*coefficient)" in t and "prefixes[index].add(suffixes[(index + 1)])" in t, F.loc(f), "a_i x_i in R - sum(others) => x_i in (R - [others]) / a_i")
+        S(R, "T-INVERSE", "affine:candidate", "required.sub(others).div_by(*coefficient)" in t and "prefixes[index].add(suffixes[(index + 1)])" in t, F.loc(f), "a_i x_i in R - sum(others) => x_i in (R - [others]) / a_i")
     # required_bounds table
     f = F.fn("transformers::bounds::required_bounds")
     if f is not None:
@@ -460,7 +467,7 @@ def w_rules(F, R):
             want = {"LessOrEqual": "new(core::f64::NEG_INFINITY, 0.0)", "Less": "new(core::f64::NEG_INFINITY, 0.0)", "GreaterOrEqual": "new(0.0, core::f64::INFINITY)", "Greater": "new(0.0, core::f64::INFINITY)", "Equal": "singleton(0.0)"}
             for v, w in want.items():
                 t = sexp(strip(am[v][0]["body"])).replace("<impl f64>::", "").replace("transformers::bounds::", "").replace("Bounds::", "")
-                R.ob("T-INVERSE", "required:" + v, t == w, F.loc(f), "lhs - rhs %s 0 requires the difference in %s; code: %s" % (v, w, t))
+                S(R, "T-INVERSE", "required:" + v, t == w, F.loc(f), "lhs - rhs %s 0 requires the difference in %s; code: %s" % (v, w, t))
 
 
 def w_exact(F, R):
@@ -477,7 +484,7 @@ def w_exact(F, R):
                 c = strip(i["cond"])
                 exact = c.get("k") == "Binary" and c["op"] == "==" and sexp(strip(c["b"])) == "0.0" and strip(c["a"]).get("k") in ("Path", "Unary")
                 R.fn(f["path"])
-                R.ob("W-EXACT", "%s:remove-if" % f["path"].rsplit("::", 1)[-1], exact, F.loc(f, i), "a coefficient is removed under `%s`; only an exact `== 0.0` test is sound here" % sexp(c))
+                S(R, "W-EXACT", "%s:remove-if" % f["path"].rsplit("::", 1)[-1], exact, F.loc(f, i), "a coefficient is removed under `%s`; only an exact `== 0.0` test is sound here" % sexp(c))
             if i.get("k") == "MCall" and i["name"] == "retain" and i["args"] and strip(i["args"][0]).get("k") == "Closure":
                 n += 1
                 body = strip(strip(i["args"][0])["body"])
@@ -486,8 +493,8 @@ def w_exact(F, R):
                     last = strip(body.get("e") or {})
                 exact = last.get("k") == "Binary" and last["op"] == "!=" and sexp(strip(last["b"])) == "0.0"
                 R.fn(f["path"])
-                R.ob("W-EXACT", "%s:retain" % f["path"].rsplit("::", 1)[-1], exact, F.loc(f, i), "coefficients are kept under `%s`; only an exact `!= 0.0` test is sound here" % sexp(last))
-    R.ob("W-EXACT", "sites", n >= 2, "packages/rooc/src/transformers/bounds.rs", "expected the coefficient-removal sites of AffineForm::merge and ::scale, found %d" % n)
+                S(R, "W-EXACT", "%s:retain" % f["path"].rsplit("::", 1)[-1], exact, F.loc(f, i), "coefficients are kept under `%s`; only an exact `!= 0.0` test is sound here" % sexp(last))
+    S(R, "W-EXACT", "sites", n >= 2, "packages/rooc/src/transformers/bounds.rs", "expected the coefficient-removal sites of AffineForm::merge and ::scale, found %d" % n)
 
 
 def check(F, R, tier="quick"):
